@@ -403,7 +403,8 @@ def _update_axis(
   sketch_dk = axis_state.eigvecs
   assert sketch_dk.shape == (d, k), (sketch_dk.shape, d, k, update.shape, dim)
 
-  sketch_dk *= axis_state.eigvals[jnp.newaxis, :]
+  # Out of place: eigvecs may be a caller-owned (numpy) state leaf.
+  sketch_dk = sketch_dk * axis_state.eigvals[jnp.newaxis, :]
   all_but_dim = [i for i in range(update.ndim) if i != dim]
   g_dm = update.transpose([dim] + all_but_dim).reshape(d, -1)
   decay = jnp.sqrt(options.second_moment_decay)
